@@ -663,7 +663,7 @@ fn ro_table_pass(out: &mut Out, rng: &mut Rng) {
     let dummy = redis_sim::redis::RespValue::BulkString(None);
     let mut n = 0u64;
     for cmd in all_variants(rng, "a", "b", true) {
-        if enc_cmd(&cmd, &dummy).is_none() || matches!(cmd, Command::FlushDb | Command::FlushAll) {
+        if (enc_cmd(&cmd, &dummy).is_none() && enc_xcmd(&cmd).is_none()) || matches!(cmd, Command::FlushDb | Command::FlushAll) {
             continue;
         }
         seq.push(format!("{:?}", cmd));
